@@ -243,7 +243,7 @@ CHECKS = {
         "timeout": {"quick": 1200, "thorough": 14000},
     },
     "C08": {
-        "scenarios": [("C08-skew", "vsim"), ("C08-client", "vsim"), ("C08-cache", "vsim"), ("C08-back", "vtime"), ("C08-skew", "vtime", 0.125), ("C08-client", "vtime", 0.25)],
+        "scenarios": [("C08-skew", "vsim"), ("C08-client", "vsim"), ("C08-cache", "vsim"), ("C08-predial", "vsim"), ("C08-back", "vtime"), ("C08-skew", "vtime", 0.125), ("C08-client", "vtime", 0.25)],
         "rule": "(a) the virtual clock is moved to instants k*120+60 s (key slot change) and k*60 s (minute tick) +-2 s in 250 ms steps, "
                 "or random; a reference client whose key instant and stamp instant are chosen independently (+-0/1/30/59/60 s for "
                 "acceptance; stamp >= 2 minutes or key >= 4 minutes away for rejection) handshakes with the real server on both "
